@@ -4,6 +4,8 @@
    The special cases hard-coded in binary_to_gray / gray_to_binary are REGENERATED from the source
    (Gen/GrayConst.v). *)
 From Coq Require Import NArith QArith List Bool.
+From Coq Require Import Reals.
+From KV Require Mod.PSKGeomR.
 From KV Require Import Gen.GrayConst Mod.Gray Mod.GrayFacts Mod.Constellation Mod.ConstellationFacts.
 Import ListNotations.
 
@@ -74,3 +76,15 @@ Theorem C14_unit_energy : forall tol pts, unit_energy_ok tol pts = true ->
   ((1 - tol) * inject_Z (Z.of_nat (length pts)) <= qsum (map energy pts) <= (1 + tol) * inject_Z (Z.of_nat (length pts)))%Q.
 Proof. exact unit_energy_ok_spec. Qed.
 Print Assumptions C14_unit_energy.
+
+(* PSK of ARBITRARY order M (Coq Reals): the two circular neighbours of a point are strictly nearer than every other point and equally
+   near; all points are distinct.  With C14_gray_consecutive_one_bit and C14_gray_wraparound_one_bit (labels of circular neighbours
+   differ in one bit) this is the Gray nearest-neighbour clause for every M = 2^b, beyond the published tables. *)
+Theorem C14_psk_neighbours_are_nearest : forall M d : nat, (4 <= M)%nat -> (2 <= d)%nat -> (d <= M - 2)%nat -> (PSKGeomR.chord2 M 1 < PSKGeomR.chord2 M d)%R.
+Proof. exact PSKGeomR.psk_neighbours_are_nearest. Qed.
+Print Assumptions C14_psk_neighbours_are_nearest.
+
+Theorem C14_psk_two_neighbours_and_distinct : forall M d : nat, (2 <= M)%nat ->
+  PSKGeomR.chord2 M (M - 1) = PSKGeomR.chord2 M 1 /\ ((1 <= d)%nat -> (d <= M - 1)%nat -> (0 < PSKGeomR.chord2 M d)%R).
+Proof. intros M d HM. split; [now apply PSKGeomR.psk_two_neighbours_equal|intros; now apply PSKGeomR.psk_points_distinct]. Qed.
+Print Assumptions C14_psk_two_neighbours_and_distinct.
